@@ -53,6 +53,36 @@ func (ep *episode) prepareEval(jr *jobRun) error {
 	} else {
 		pool3 = samplePoints3(s3.BoundingBox(), r, poolN)
 	}
+	// long query history first: j.Warm sequential evaluations at distinct
+	// lattice points (by the scheduler goroutine, never parked). Half of the
+	// pool then revisits early warm-up points, half is new.
+	if j.Warm > 0 {
+		side := 1
+		for side*side < j.Warm {
+			side++
+		}
+		if s2 != nil {
+			bb := s2.BoundingBox()
+			sz := bb.Size()
+			for i := 0; i < j.Warm; i++ {
+				p := v2.Vec{X: bb.Min.X + sz.X*float64(i%side)/float64(side), Y: bb.Min.Y + sz.Y*float64(i/side)/float64(side)}
+				s2.Evaluate(p)
+				if i < poolN/2 {
+					pool2[i] = p
+				}
+			}
+		} else {
+			bb := s3.BoundingBox()
+			sz := bb.Size()
+			for i := 0; i < j.Warm; i++ {
+				p := v3.Vec{X: bb.Min.X + sz.X*float64(i%side)/float64(side), Y: bb.Min.Y + sz.Y*float64(i/side)/float64(side), Z: bb.Min.Z + sz.Z*float64(i%7)/7}
+				s3.Evaluate(p)
+				if i < poolN/2 {
+					pool3[i] = p
+				}
+			}
+		}
+	}
 	seq := make([][]int, callers)
 	results := make([][]float64, callers)
 	for c := range seq {
@@ -154,6 +184,34 @@ func planC10(tier string, root *simcore.RNG) *plan {
 				Sites: map[string]uint32{"caller": 1, "leaf.pre": 1, "leaf.post": 1}, Sched: genSched(r, victims),
 				Env: Env{GOMAXPROCS: pick(r, []int{1, 4, 16}), CPUs: 16, Race: true}}
 			pl.scenarios = append(pl.scenarios, sc)
+		}
+		// stateful wrappers: a long sequential query history before the concurrent phase
+		stateful := false
+		for _, c := range e.Ctors {
+			if c == "sdf.Cache2D" || c == "sdf.NewVoxelSDF3" {
+				stateful = true
+			}
+		}
+		if stateful || (tier == "thorough" && ni%5 == rot%5) {
+			nw := 1
+			if tier == "thorough" {
+				nw = 3
+			}
+			for k := 0; k < nw; k++ {
+				r := root.Fork()
+				warm := pick(r, []int{300000, 600000, 70000})
+				if !stateful {
+					warm = 20000
+				}
+				if e.Heavy {
+					warm = 2000
+				}
+				j := Job{ID: 1, Kind: "eval", Model: name, Callers: 2 + r.Intn(2), Points: 8 + r.Intn(6), CoordSeed: r.Uint64(), Warm: warm}
+				sc := &Scenario{Prop: "C10", Family: "eval", Seed: r.Uint64(), Groups: [][]Job{{j}},
+					Sites: map[string]uint32{"caller": 1}, Sched: genSched(r, nil),
+					Env: Env{GOMAXPROCS: pick(r, []int{1, 4, 16}), CPUs: 16, Race: true}, Note: "long-history"}
+				pl.scenarios = append(pl.scenarios, sc)
+			}
 		}
 		if ni%renderEvery == rot && !e.Heavy {
 			reps := 1
